@@ -50,11 +50,53 @@ func SetHook(h HookFunc) {
 // ResetSeq restarts event numbering.
 func ResetSeq() { seq.Store(0) }
 
+// pre is called (when non-nil) before an event gets its sequence number; the
+// harness uses it to run deferred clean-up goroutines (GoFS) at a point of the
+// driver's event stream that the seed decides.
+var pre atomic.Pointer[func(ev *Event)]
+
+// SetPre installs p (nil removes it).
+func SetPre(p func(ev *Event)) {
+	if p == nil {
+		pre.Store(nil)
+		return
+	}
+	pre.Store(&p)
+}
+
+var goCtl atomic.Pointer[func(f func()) bool]
+
+// SetGoCtl installs the controller for GoFS (nil removes it). The controller
+// returns true when it has taken charge of f.
+func SetGoCtl(c func(f func()) bool) {
+	if c == nil {
+		goCtl.Store(nil)
+		return
+	}
+	goCtl.Store(&c)
+}
+
+// GoFS replaces "go func() { ... os.RemoveAll(...) ... }()" statements of the
+// instrumented copy (fire-and-forget clean-up goroutines that nothing waits
+// for). Without a controller it is the go statement. With one, the simulator
+// decides when the goroutine starts and lets it run to completion while the
+// spawning goroutine waits, so that the file-system event stream of a run is a
+// function of the seed and not of the Go scheduler.
+func GoFS(f func()) {
+	if c := goCtl.Load(); c != nil && (*c)(f) {
+		return
+	}
+	go f()
+}
+
 func before(ev *Event) Action {
 	verifsync.Point("fs:" + ev.Op)
 	h := hook.Load()
 	if h == nil {
 		return Action{}
+	}
+	if p := pre.Load(); p != nil {
+		(*p)(ev)
 	}
 	ev.Seq = seq.Add(1)
 	return (*h)(ev)
